@@ -59,6 +59,23 @@ fn describe(e: &error::Error, sources: &[(String, String)]) -> String
 				}
 				let code_tag = format!("{}", e.code());
 				let text = String::from_utf8_lossy(&buf);
+				if !color && ascii
+				{
+					// the line the rendered header shows (`-[ file:LINE:COL ]`) must be the reported one
+					if let Some(i) = text.find("-[ ")
+					{
+						let head: &str = text[i + 3..].split(" ]").next().unwrap_or("");
+						let mut parts = head.rsplitn(3, ':');
+						let _col = parts.next();
+						if let Some(Ok(l)) = parts.next().map(|x| x.parse::<usize>())
+						{
+							if l != loc.line_number
+							{
+								status.push(format!("hdrline{}", l));
+							}
+						}
+					}
+				}
 				if !text.contains(&code_tag)
 				{
 					status.push(format!("nocode{}{}", color as u8, ascii as u8));
